@@ -1,7 +1,1311 @@
-// Package c09 is only a marker: the C09 harness is hosted inside /repo/cmd/arc (package main) by
-// overlay, because compaction jobs run in a SUBPROCESS that re-executes os.Executable() with
-// `compact --job-stdin`; hosted there, the re-exec is served by the real runCompactSubcommand.
-// See /verif/harness/inpkg/arcmain/zz_verif_c09.go.
 package main
 
-func main() {}
+// C09 — Compaction never loses or duplicates rows, even across crashes.
+//
+// Compaction jobs run in a SUBPROCESS: compaction.RunJobInSubprocess re-executes os.Executable()
+// with `compact --job-stdin`. This binary therefore serves that re-exec itself (main below): it arms
+// the os-level fault shim (vos, compiled into internal/storage/local.go and internal/compaction by
+// overlay) for exactly one job and calls the REAL compaction.RunSubprocessJob, exactly as
+// cmd/arc's runCompactSubcommand does (read the job JSON from stdin, print the result JSON).
+// (The arc binary itself is not used as host: its start-up costs 1-4 s per job process here because
+// of package initialisers unrelated to compaction, which makes the enumeration unaffordable.)
+// A "kill" is a real SIGKILL of the job process: from the k-th mutating file-system call on nothing
+// reaches the disk any more (vos crash semantics), nothing is written to stdout, and the process
+// kills itself, so the parent (the real compaction.Manager) sees "signal: killed" -> recoverable ->
+// adaptive split-and-retry.
+//
+// Enumerated: partitions (small Parquet files written by the real ArrowWriter, stored under file
+// names dated in the past) x fault modes x EVERY mutating file-system call of the target job:
+//   job-kill     the job subprocess is killed at call k; the parent's cycle goes on (adaptive split)
+//   node-crash   the job is killed at call k and the parent dies with it: the crash state itself is
+//                judged, then a fresh Manager starts with manifest recovery
+//   job-error    call k of the job subprocess fails with EIO (no kill)
+//   inproc-error Job.Run called directly in-process, call k fails with EIO, then normal cycles
+// followed by later cycles (virtual clock +2h each) until the listing stops changing (<=3).
+// Oracle: DuckDB scan of every *.parquet of the measurement, before vs after.
+
+import (
+	"context"
+	"database/sql"
+	"encoding/json"
+	"fmt"
+	"io"
+	"io/fs"
+	"os"
+	"path/filepath"
+	"sort"
+	"strconv"
+	"strings"
+	"syscall"
+	"time"
+
+	"github.com/basekick-labs/arc/internal/compaction"
+	"github.com/basekick-labs/arc/internal/config"
+	"github.com/basekick-labs/arc/internal/ingest"
+	"github.com/basekick-labs/arc/internal/storage"
+	"github.com/basekick-labs/arc/zzverif/engine/ev"
+	"github.com/basekick-labs/arc/zzverif/shim/vclock"
+	"github.com/basekick-labs/arc/zzverif/shim/vos"
+	"github.com/rs/zerolog"
+)
+
+func main() {
+	if len(os.Args) > 1 && os.Args[1] == "compact" {
+		c09JobProcess()
+		return
+	}
+	verifC09()
+}
+
+// ---------------------------------------------------------------------------------------------
+// job subprocess side
+
+type c09Fault struct {
+	Tier      string `json:"tier"`
+	Partition string `json:"partition"`
+	Batch     int    `json:"batch"`
+	Nth       int    `json:"nth"` // n-th launch of a job with this identity (0 = first attempt)
+	K         int    `json:"k"`
+	Torn      int    `json:"torn"`
+	Mode      string `json:"mode"` // kill | fail
+}
+
+type c09Plan struct {
+	NowNS  int64      `json:"now_ns"`
+	Faults []c09Fault `json:"faults"`
+}
+
+type c09JobLog struct {
+	Seq       int       `json:"seq"`
+	Tier      string    `json:"tier"`
+	Partition string    `json:"partition"`
+	Batch     int       `json:"batch"`
+	Nth       int       `json:"nth"`
+	Files     []string  `json:"files"`
+	Ops       []vos.Op  `json:"ops"`
+	Dead      bool      `json:"dead"`
+	Fault     *c09Fault `json:"fault,omitempty"`
+}
+
+func c09Claim(dir, prefix string) int {
+	for i := 0; ; i++ {
+		f, err := os.OpenFile(filepath.Join(dir, fmt.Sprintf("%s.%d", prefix, i)), os.O_CREATE|os.O_EXCL|os.O_WRONLY, 0o600)
+		if err == nil {
+			f.Close()
+			return i
+		}
+		if !os.IsExist(err) {
+			fmt.Fprintf(os.Stderr, "verif-c09: claim: %v\n", err)
+			os.Exit(3)
+		}
+	}
+}
+
+func c09IDKey(tier, partition string, batch int) string {
+	return tier + "." + strings.ReplaceAll(partition, "/", "_") + ".b" + strconv.Itoa(batch)
+}
+
+// c09JobProcess is the `compact --job-stdin` side: the glue of cmd/arc's runCompactSubcommand (job
+// JSON on stdin -> compaction.RunSubprocessJob -> result JSON on stdout, "error: ..." + exit 1 when
+// the job could not be set up) around the fault plan of the scenario.
+func c09JobProcess() {
+	data, err := io.ReadAll(os.Stdin)
+	var cfg compaction.SubprocessJobConfig
+	if err == nil {
+		err = json.Unmarshal(data, &cfg)
+	}
+	if err != nil {
+		fmt.Fprintf(os.Stderr, "error: invalid job config: %v\n", err)
+		os.Exit(1)
+	}
+	planDir := os.Getenv("VERIF_C09_PLAN")
+	var plan c09Plan
+	if b, err := os.ReadFile(filepath.Join(planDir, "plan.json")); err != nil || json.Unmarshal(b, &plan) != nil {
+		fmt.Fprintf(os.Stderr, "verif-c09: no plan: %v\n", err)
+		os.Exit(3)
+	}
+	seq := c09Claim(planDir, "seq")
+	nth := c09Claim(planDir, "nth."+c09IDKey(cfg.Tier, cfg.PartitionPath, cfg.BatchNumber))
+	// every job process gets its own virtual instant (output names embed the clock)
+	vclock.Install(time.Unix(0, plan.NowNS).Add(time.Duration(seq+1) * time.Second))
+	lg := c09JobLog{Seq: seq, Tier: cfg.Tier, Partition: cfg.PartitionPath, Batch: cfg.BatchNumber, Nth: nth, Files: cfg.Files}
+	crash, torn, failK := -1, -1, -1
+	for i := range plan.Faults {
+		f := plan.Faults[i]
+		if f.Tier == cfg.Tier && f.Partition == cfg.PartitionPath && f.Batch == cfg.BatchNumber && f.Nth == nth {
+			lg.Fault = &f
+			if f.Mode == "kill" {
+				crash, torn = f.K, f.Torn
+			} else {
+				failK = f.K
+			}
+		}
+	}
+	vos.Start(crash, torn)
+	if failK >= 0 {
+		vos.FailAt(failK, syscall.EIO)
+	}
+	result, jobErr := compaction.RunSubprocessJob(&cfg)
+	lg.Ops, lg.Dead = vos.Stop()
+	b, _ := json.Marshal(lg)
+	os.WriteFile(filepath.Join(planDir, fmt.Sprintf("job.%d.json", seq)), b, 0o600)
+	if lg.Dead {
+		// the process "died" at call k: nothing after it reached the disk, nothing reaches stdout
+		syscall.Kill(os.Getpid(), syscall.SIGKILL)
+		time.Sleep(30 * time.Second)
+		os.Exit(99)
+	}
+	if jobErr != nil {
+		fmt.Fprintf(os.Stderr, "error: %v\n", jobErr)
+		os.Exit(1)
+	}
+	if err := json.NewEncoder(os.Stdout).Encode(result); err != nil {
+		fmt.Fprintf(os.Stderr, "error: failed to encode result: %v\n", err)
+		os.Exit(1)
+	}
+}
+
+// ---------------------------------------------------------------------------------------------
+// partitions
+
+type c09File struct {
+	Hour      int
+	Cols      []string
+	Rows      []map[string]any // "time": seconds into the hour; missing key = NULL
+	Tags      []string
+	DedupTime bool
+}
+
+type c09Part struct {
+	Name     string
+	Files    []c09File
+	MaxBatch int
+	SortKeys []string
+	Quick    bool
+}
+
+const (
+	c09DB   = "db1"
+	c09Meas = "m"
+)
+
+var c09Day = time.Date(2026, 3, 1, 0, 0, 0, 0, time.UTC)
+var c09T0 = time.Date(2026, 3, 12, 12, 0, 0, 0, time.UTC)
+
+func r(kv ...any) map[string]any {
+	m := map[string]any{}
+	for i := 0; i+1 < len(kv); i += 2 {
+		m[kv[i].(string)] = kv[i+1]
+	}
+	return m
+}
+
+func c09Parts() []c09Part {
+	var ps []c09Part
+	plain := func(name string, n, maxBatch int, quick bool) c09Part {
+		p := c09Part{Name: name, MaxBatch: maxBatch, Quick: quick}
+		for i := 0; i < n; i++ {
+			f := c09File{Hour: 5, Cols: []string{"time", "host", "v", "n"}}
+			for j := 0; j < 3; j++ {
+				row := r("time", 10*i+j, "host", fmt.Sprintf("h%d", j%2), "v", float64(i*10+j))
+				if j != 1 {
+					row["n"] = int64(j + i)
+				}
+				f.Rows = append(f.Rows, row)
+			}
+			if i == 0 || i == 1 || i == n-1 {
+				// the SAME row in three files: without dedup metadata all three copies must survive
+				f.Rows = append(f.Rows, r("time", 900, "host", "hx", "v", 1.5, "n", int64(7)))
+			}
+			p.Files = append(p.Files, f)
+		}
+		return p
+	}
+	ps = append(ps, plain("plain6", 6, 4, true))
+	{
+		p := c09Part{Name: "tags6dup", MaxBatch: 4, Quick: true}
+		for i := 0; i < 6; i++ {
+			f := c09File{Hour: 5, Cols: []string{"time", "host", "v"}, Tags: []string{"host"}}
+			f.Rows = append(f.Rows, r("time", 100+i, "host", "a", "v", float64(i)))
+			switch i {
+			case 0, 2: // duplicate key inside batch 1
+				f.Rows = append(f.Rows, r("time", 500, "host", "a", "v", float64(1000+i)))
+			case 1: // duplicate key across the batches (files 1 and 4)
+				f.Rows = append(f.Rows, r("time", 600, "host", "b", "v", float64(2000+i)))
+			case 3: // same time, other host: a different key
+				f.Rows = append(f.Rows, r("time", 500, "host", "b", "v", float64(3000+i)))
+			case 4:
+				f.Rows = append(f.Rows, r("time", 600, "host", "b", "v", float64(2000+i)), r("time", 700, "host", "a", "v", float64(4000+i)))
+			case 5: // duplicate key inside batch 2
+				f.Rows = append(f.Rows, r("time", 700, "host", "a", "v", float64(4000+i)))
+			}
+			p.Files = append(p.Files, f)
+		}
+		ps = append(ps, p)
+	}
+	{
+		p := c09Part{Name: "dedupt5", MaxBatch: 3, Quick: true}
+		for i := 0; i < 5; i++ {
+			f := c09File{Hour: 5, Cols: []string{"time", "v"}, DedupTime: true}
+			f.Rows = append(f.Rows, r("time", 60*i, "v", float64(i)), r("time", 60*i+1))
+			switch i {
+			case 0, 1:
+				f.Rows = append(f.Rows, r("time", 3000, "v", float64(100+i)))
+			case 2, 3:
+				f.Rows = append(f.Rows, r("time", 3100, "v", float64(200+i)))
+			}
+			p.Files = append(p.Files, f)
+		}
+		ps = append(ps, p)
+	}
+	{
+		p := c09Part{Name: "nulltags4", MaxBatch: 2}
+		for i := 0; i < 4; i++ {
+			f := c09File{Hour: 5, Cols: []string{"time", "host", "region", "v"}, Tags: []string{"host", "region"}}
+			f.Rows = append(f.Rows,
+				r("time", 10+i, "region", "eu", "v", float64(i)), // NULL host, unique key
+				r("time", 20+i, "host", "a", "v", float64(10+i)), // NULL region, unique key
+				r("time", 30+i, "v", float64(20+i)),              // both NULL, unique key
+				r("time", 40+i, "host", "a", "region", "eu"))     // NULL field
+			if i < 2 {
+				f.Rows = append(f.Rows, r("time", 999, "host", "a", "region", "eu", "v", float64(500+i)))
+			}
+			p.Files = append(p.Files, f)
+		}
+		ps = append(ps, p)
+	}
+	{
+		p := c09Part{Name: "schema5", MaxBatch: 4}
+		p.Files = []c09File{
+			{Hour: 5, Cols: []string{"time", "host", "v"}, Rows: []map[string]any{r("time", 1, "host", "a", "v", 1.0), r("time", 2, "host", "b")}},
+			{Hour: 5, Cols: []string{"time", "host", "v", "n"}, Rows: []map[string]any{r("time", 3, "host", "a", "v", 2.0, "n", int64(5)), r("time", 1, "host", "a", "v", 1.0)}},
+			{Hour: 5, Cols: []string{"time", "v", "s"}, Rows: []map[string]any{r("time", 4, "v", 3.0, "s", "x'y"), r("time", 5, "s", "")}},
+			{Hour: 5, Cols: []string{"time", "host", "ok", "v"}, Rows: []map[string]any{r("time", 6, "host", "c", "ok", true, "v", -0.5), r("time", 7, "ok", false)}},
+			{Hour: 5, Cols: []string{"time", "n"}, Rows: []map[string]any{r("time", 8, "n", int64(-9)), r("time", 9)}},
+		}
+		ps = append(ps, p)
+	}
+	{
+		p := c09Part{Name: "schematags6", MaxBatch: 3}
+		for i := 0; i < 6; i++ {
+			if i < 3 {
+				f := c09File{Hour: 5, Cols: []string{"time", "host", "v"}, Tags: []string{"host"}}
+				f.Rows = append(f.Rows, r("time", 10+i, "host", "a", "v", float64(i)), r("time", 50+i, "host", "b", "v", float64(i)))
+				p.Files = append(p.Files, f)
+				continue
+			}
+			f := c09File{Hour: 5, Cols: []string{"time", "host", "region", "v", "n"}, Tags: []string{"host", "region"}}
+			f.Rows = append(f.Rows, r("time", 10+i, "host", "a", "region", "eu", "v", float64(i), "n", int64(i)))
+			if i == 3 || i == 4 {
+				f.Rows = append(f.Rows, r("time", 800, "host", "a", "region", "us", "v", float64(70+i)))
+			}
+			if i == 4 { // same host+time as a row of file 1 but with a region: a different key
+				f.Rows = append(f.Rows, r("time", 11, "host", "a", "region", "eu", "v", 99.0))
+			}
+			p.Files = append(p.Files, f)
+		}
+		ps = append(ps, p)
+	}
+	{
+		p := c09Part{Name: "mixedmeta4", MaxBatch: 4}
+		for i := 0; i < 4; i++ {
+			f := c09File{Hour: 5, Cols: []string{"time", "host", "v"}}
+			if i >= 2 {
+				f.Tags = []string{"host"}
+				f.Rows = append(f.Rows, r("time", 5, "host", "a", "v", float64(100+i)))
+			}
+			f.Rows = append(f.Rows, r("time", 10+i, "host", "a", "v", float64(i)), r("time", 20+i, "host", "b", "v", float64(i)))
+			p.Files = append(p.Files, f)
+		}
+		ps = append(ps, p)
+	}
+	ps = append(ps, plain("plain3", 3, 4, false))
+	{
+		p := c09Part{Name: "tags4", MaxBatch: 4}
+		for i := 0; i < 4; i++ {
+			f := c09File{Hour: 5, Cols: []string{"time", "host", "v"}, Tags: []string{"host"}}
+			f.Rows = append(f.Rows, r("time", 10+i, "host", "a", "v", float64(i)))
+			if i == 0 || i == 3 {
+				f.Rows = append(f.Rows, r("time", 77, "host", "z", "v", float64(50+i)))
+			}
+			if i == 0 || i == 1 {
+				f.Rows = append(f.Rows, r("time", 78, "host", "z", "v", float64(60+i)))
+			}
+			p.Files = append(p.Files, f)
+		}
+		ps = append(ps, p)
+	}
+	{
+		p := plain("twohours", 6, 3, false)
+		for i := 3; i < 6; i++ {
+			p.Files[i].Hour = 6
+		}
+		ps = append(ps, p)
+	}
+	{
+		p := c09Part{Name: "tagsdedupt4", MaxBatch: 2}
+		for i := 0; i < 4; i++ {
+			f := c09File{Hour: 5, Cols: []string{"time", "host", "v"}, Tags: []string{"host"}, DedupTime: true}
+			f.Rows = append(f.Rows, r("time", 10+i, "host", "a", "v", float64(i)), r("time", 200, "host", fmt.Sprintf("h%d", i%2), "v", float64(30+i)))
+			p.Files = append(p.Files, f)
+		}
+		ps = append(ps, p)
+	}
+	ps = append(ps, plain("plain12", 12, 5, false))
+	{
+		p := plain("sortkeys6", 6, 4, false)
+		p.SortKeys = []string{"host", "time"}
+		ps = append(ps, p)
+	}
+	return ps
+}
+
+func (p *c09Part) dedup() bool {
+	for _, f := range p.Files {
+		if len(f.Tags) > 0 || f.DedupTime {
+			return true
+		}
+	}
+	return false
+}
+
+func (p *c09Part) tagUnion() []string {
+	set := map[string]bool{}
+	for _, f := range p.Files {
+		for _, t := range f.Tags {
+			set[t] = true
+		}
+	}
+	var out []string
+	for t := range set {
+		out = append(out, t)
+	}
+	sort.Strings(out)
+	return out
+}
+
+type c09Fixture struct {
+	key  string
+	data []byte
+}
+
+var c09Writer = ingest.NewArrowWriter(&config.IngestConfig{Compression: "snappy", WriteStatistics: true}, zerolog.Nop())
+
+// build renders the partition with the real ingest Parquet writer; file names carry timestamps of
+// the partition's own hour (long before the virtual "now"), as the flush path would have named them.
+func (p *c09Part) build() ([]c09Fixture, int) {
+	var out []c09Fixture
+	nrows := 0
+	for i, f := range p.Files {
+		n := len(f.Rows)
+		nrows += n
+		cols := map[string]interface{}{}
+		validity := map[string][]bool{}
+		hourStart := c09Day.Add(time.Duration(f.Hour) * time.Hour).Unix()
+		for _, c := range f.Cols {
+			val := make([]bool, n)
+			switch c {
+			case "time":
+				xs := make([]int64, n)
+				for j, row := range f.Rows {
+					xs[j] = (hourStart + int64(row["time"].(int))) * 1_000_000
+					val[j] = true
+				}
+				cols[c] = xs
+			case "host", "region", "s":
+				xs := make([]string, n)
+				for j, row := range f.Rows {
+					if v, ok := row[c]; ok {
+						xs[j], val[j] = v.(string), true
+					}
+				}
+				cols[c] = xs
+			case "v", "w":
+				xs := make([]float64, n)
+				for j, row := range f.Rows {
+					if v, ok := row[c]; ok {
+						xs[j], val[j] = v.(float64), true
+					}
+				}
+				cols[c] = xs
+			case "n":
+				xs := make([]int64, n)
+				for j, row := range f.Rows {
+					if v, ok := row[c]; ok {
+						xs[j], val[j] = v.(int64), true
+					}
+				}
+				cols[c] = xs
+			case "ok":
+				xs := make([]bool, n)
+				for j, row := range f.Rows {
+					if v, ok := row[c]; ok {
+						xs[j], val[j] = v.(bool), true
+					}
+				}
+				cols[c] = xs
+			default:
+				ev.Unbound("C09 generator: unknown column " + c)
+			}
+			validity[c] = val
+		}
+		data, err := c09Writer.WriteParquetColumnar(context.Background(), c09Meas, cols, validity, f.Tags, f.DedupTime, nil)
+		if err != nil {
+			ev.Unbound("C09: WriteParquetColumnar: " + err.Error())
+		}
+		ts := c09Day.Add(time.Duration(f.Hour)*time.Hour + time.Duration(i*7+3)*time.Second)
+		key := fmt.Sprintf("%s/%s/%s/%02d/%s_%s_%d.parquet", c09DB, c09Meas, c09Day.Format("2006/01/02"), f.Hour, c09Meas, ts.Format("20060102_150405"), 1000+i)
+		out = append(out, c09Fixture{key, data})
+	}
+	return out, nrows
+}
+
+// ---------------------------------------------------------------------------------------------
+// observation: DuckDB scan of every *.parquet of the measurement
+
+type c09Obs struct {
+	Rows     map[string]int // canonical row -> count
+	Keys     map[string]int // dedup key -> count (dedup partitions)
+	RowKey   map[string]string
+	Files    []string          // every file under the store (relative), sorted
+	Bad      map[string]string // unreadable *.parquet -> error
+	Total    int
+	Manifest int
+	Parts    int
+}
+
+func c09Canon(v any) string {
+	switch x := v.(type) {
+	case time.Time:
+		return "t" + strconv.FormatInt(x.UnixMicro(), 10)
+	case float64:
+		return "f" + strconv.FormatFloat(x, 'g', -1, 64)
+	case float32:
+		return "f" + strconv.FormatFloat(float64(x), 'g', -1, 64)
+	case int64:
+		return "i" + strconv.FormatInt(x, 10)
+	case int32:
+		return "i" + strconv.FormatInt(int64(x), 10)
+	case int:
+		return "i" + strconv.Itoa(x)
+	case string:
+		return strconv.Quote(x)
+	case []byte:
+		return strconv.Quote(string(x))
+	case bool:
+		return "b" + strconv.FormatBool(x)
+	}
+	return fmt.Sprintf("?%T:%v", v, v)
+}
+
+func c09Scan(db *sql.DB, store string, tags []string) *c09Obs {
+	o := &c09Obs{Rows: map[string]int{}, Keys: map[string]int{}, RowKey: map[string]string{}, Bad: map[string]string{}}
+	filepath.WalkDir(store, func(p string, d fs.DirEntry, err error) error {
+		if err != nil || d.IsDir() {
+			return nil
+		}
+		rel, _ := filepath.Rel(store, p)
+		o.Files = append(o.Files, rel)
+		if strings.HasPrefix(rel, compaction.ManifestBasePath+"/") {
+			if strings.HasSuffix(rel, ".json") {
+				o.Manifest++
+			}
+			return nil
+		}
+		if strings.HasSuffix(rel, ".part") {
+			o.Parts++
+		}
+		if !strings.HasSuffix(rel, ".parquet") || strings.HasPrefix(filepath.Base(rel), ".") || !strings.HasPrefix(rel, c09DB+"/"+c09Meas+"/") {
+			return nil
+		}
+		rs, err := db.Query(fmt.Sprintf("SELECT * FROM read_parquet('%s')", strings.ReplaceAll(p, "'", "''")))
+		if err != nil {
+			o.Bad[rel] = err.Error()
+			return nil
+		}
+		defer rs.Close()
+		cols, _ := rs.Columns()
+		vals := make([]any, len(cols))
+		ptrs := make([]any, len(cols))
+		for i := range vals {
+			ptrs[i] = &vals[i]
+		}
+		for rs.Next() {
+			if err := rs.Scan(ptrs...); err != nil {
+				o.Bad[rel] = err.Error()
+				return nil
+			}
+			m := map[string]string{}
+			var parts []string
+			for i, c := range cols {
+				if vals[i] == nil {
+					continue
+				}
+				m[c] = c09Canon(vals[i])
+				parts = append(parts, c+"="+m[c])
+			}
+			sort.Strings(parts)
+			row := strings.Join(parts, ";")
+			o.Rows[row]++
+			o.Total++
+			var kp []string
+			for _, t := range tags {
+				if v, ok := m[t]; ok {
+					kp = append(kp, t+"="+v)
+				} else {
+					kp = append(kp, t+"=NULL")
+				}
+			}
+			kp = append(kp, "time="+m["time"])
+			key := strings.Join(kp, ";")
+			o.Keys[key]++
+			o.RowKey[row] = key
+		}
+		if err := rs.Err(); err != nil {
+			o.Bad[rel] = err.Error()
+		}
+		return nil
+	})
+	sort.Strings(o.Files)
+	return o
+}
+
+// ---------------------------------------------------------------------------------------------
+// scenarios
+
+type c09Scn struct {
+	Part       string   `json:"partition"`
+	Mode       string   `json:"mode"`
+	Fault      c09Fault `json:"fault"`
+	Label      string   `json:"crash_before"`
+	Op         vos.Op   `json:"op"`
+	Job        string   `json:"job"`
+	BatchFiles int      `json:"batch_files"`
+}
+
+type c09Rec struct {
+	Part   string      `json:"part"`
+	Jobs   []c09JobLog `json:"jobs"`
+	Inproc []vos.Op    `json:"inproc"`
+	InJob  string      `json:"injob"`
+	InN    int         `json:"in_n"`
+}
+
+type c09Worker struct {
+	run     *ev.Run
+	scratch string
+	duck    *sql.DB
+	caseN   int
+	ctr     map[string]int64
+	samples *ev.Samples
+	debug   bool
+}
+
+func (w *c09Worker) logger() zerolog.Logger {
+	if w.debug {
+		return zerolog.New(os.Stderr).Level(zerolog.DebugLevel)
+	}
+	return zerolog.Nop()
+}
+
+type c09Env struct {
+	w      *c09Worker
+	part   *c09Part
+	dir    string
+	store  string
+	tmp    string
+	plan   string
+	lb     *storage.LocalBackend
+	before *c09Obs
+	tags   []string
+	faults []c09Fault
+}
+
+func (w *c09Worker) newEnv(p *c09Part, fx []c09Fixture) *c09Env {
+	w.caseN++
+	e := &c09Env{w: w, part: p, dir: filepath.Join(w.scratch, fmt.Sprintf("case%d", w.caseN)), tags: p.tagUnion()}
+	e.store, e.tmp, e.plan = filepath.Join(e.dir, "store"), filepath.Join(e.dir, "tmp"), filepath.Join(e.dir, "plan")
+	os.RemoveAll(e.dir)
+	os.MkdirAll(e.tmp, 0o700)
+	os.MkdirAll(e.plan, 0o700)
+	lb, err := storage.NewLocalBackend(e.store, zerolog.Nop())
+	if err != nil {
+		ev.Unbound("C09: NewLocalBackend: " + err.Error())
+	}
+	e.lb = lb
+	for _, f := range fx {
+		if err := lb.Write(context.Background(), f.key, f.data); err != nil {
+			ev.Unbound("C09: fixture write: " + err.Error())
+		}
+	}
+	os.Setenv("VERIF_C09_PLAN", e.plan)
+	vclock.Install(c09T0)
+	e.before = c09Scan(w.duck, e.store, e.tags)
+	if len(e.before.Bad) > 0 {
+		ev.Unbound(fmt.Sprintf("C09: DuckDB cannot read a fixture written by the real ArrowWriter: %v", e.before.Bad))
+	}
+	return e
+}
+
+func (e *c09Env) close() { os.RemoveAll(e.dir) }
+
+func (e *c09Env) manager() *compaction.Manager {
+	lg := e.w.logger()
+	tiers := []compaction.Tier{
+		compaction.NewHourlyTier(&compaction.HourlyTierConfig{StorageBackend: e.lb, MinAgeHours: 1, MinFiles: 2, Enabled: true, Logger: lg}),
+		compaction.NewDailyTier(&compaction.DailyTierConfig{StorageBackend: e.lb, MinAgeHours: 24, MinFiles: 2, SkipFileAgeCheckDays: 7, Enabled: true, Logger: lg}),
+	}
+	sk := map[string][]string{}
+	if len(e.part.SortKeys) > 0 {
+		sk[c09Meas] = e.part.SortKeys
+	}
+	return compaction.NewManager(&compaction.ManagerConfig{StorageBackend: e.lb, LockManager: compaction.NewLockManager(), MinAgeHours: 1, MinFiles: 2,
+		MaxFilesPerBatch: e.part.MaxBatch, MaxConcurrent: 1, TempDirectory: e.tmp, MemoryLimit: "256MB", Threads: 1,
+		SortKeysConfig: sk, DefaultSortKeys: []string{"time"}, Tiers: tiers, Logger: lg})
+}
+
+func (e *c09Env) writePlan() {
+	b, _ := json.Marshal(c09Plan{NowNS: vclock.Now().UnixNano(), Faults: e.faults})
+	tmp := filepath.Join(e.plan, "plan.json.tmp")
+	os.WriteFile(tmp, b, 0o600)
+	os.Rename(tmp, filepath.Join(e.plan, "plan.json"))
+}
+
+func (e *c09Env) jobLogs() []c09JobLog {
+	var out []c09JobLog
+	for i := 0; ; i++ {
+		if _, err := os.Stat(filepath.Join(e.plan, fmt.Sprintf("seq.%d", i))); err != nil {
+			break
+		}
+		var l c09JobLog
+		b, err := os.ReadFile(filepath.Join(e.plan, fmt.Sprintf("job.%d.json", i)))
+		if err != nil || json.Unmarshal(b, &l) != nil {
+			l = c09JobLog{Seq: i, Tier: "?(no log: the job process exited through os.Exit)"}
+		}
+		out = append(out, l)
+	}
+	return out
+}
+
+var c09Tiers = []string{"hourly", "daily"}
+
+func (e *c09Env) cycle(m *compaction.Manager) {
+	e.writePlan()
+	if _, err := m.RunCompactionCycleForTiers(context.Background(), c09Tiers); err != nil {
+		ev.Unbound("C09: RunCompactionCycleForTiers: " + err.Error())
+	}
+}
+
+// firstBatch is what runCycleInternal would hand to compactFilesAdaptively first for the partition.
+func (e *c09Env) firstBatch(m *compaction.Manager, partition string) (compaction.Candidate, bool) {
+	cands, err := m.Tiers[0].FindCandidates(context.Background(), c09DB, c09Meas)
+	if err != nil {
+		ev.Unbound("C09: FindCandidates: " + err.Error())
+	}
+	for _, c := range cands {
+		if c.PartitionPath == partition {
+			sort.Strings(c.Files)
+			return compaction.SplitCandidateIntoBatches(c, m.MaxFilesPerBatch)[0], true
+		}
+	}
+	return compaction.Candidate{}, false
+}
+
+func c09Few(xs []string) []string {
+	sort.Strings(xs)
+	if len(xs) > 4 {
+		xs = xs[:4]
+	}
+	return xs
+}
+
+// judge compares an observation with the rows visible before. exact=false: only "nothing lost,
+// nothing invented" (any crash state, any state before a later cycle has run).
+func (e *c09Env) judge(s *c09Scn, at string, o *c09Obs, exact bool) {
+	b := e.before
+	rep := func(kind, desc string, rows []string) {
+		e.w.ctr["raw_violations"]++
+		sig := strings.Join([]string{kind, at, s.Mode, s.Job, s.Label, s.Part}, "|")
+		e.w.run.Violate(sig, desc, map[string]any{"scenario": s, "observed_at": at, "rows": c09Few(rows), "files_now": o.Files,
+			"rows_before": b.Total, "rows_now": o.Total, "jobs": c09Brief(e.jobLogs())})
+	}
+	if len(o.Bad) > 0 {
+		var fs []string
+		for f, er := range o.Bad {
+			fs = append(fs, f+": "+er)
+		}
+		rep("unreadable-parquet-at-final-path", "a *.parquet file at its final path cannot be read by DuckDB", fs)
+	}
+	var lost, dup, extra []string
+	if !e.part.dedup() {
+		for row, n := range b.Rows {
+			if o.Rows[row] < n {
+				lost = append(lost, fmt.Sprintf("%s (before %d, now %d)", row, n, o.Rows[row]))
+			} else if o.Rows[row] > n {
+				dup = append(dup, fmt.Sprintf("%s (before %d, now %d)", row, n, o.Rows[row]))
+			}
+		}
+	} else {
+		for key, n := range b.Keys {
+			if o.Keys[key] == 0 {
+				lost = append(lost, fmt.Sprintf("key %s (before %d rows, now none)", key, n))
+			} else if o.Keys[key] > n {
+				dup = append(dup, fmt.Sprintf("key %s (before %d rows, now %d)", key, n, o.Keys[key]))
+			} else if exact && o.Keys[key] > 1 {
+				e.w.ctr["dedup_keys_left_uncollapsed"]++
+			}
+		}
+		for row, n := range o.Rows {
+			if bn, ok := b.Rows[row]; ok && n > bn {
+				dup = append(dup, fmt.Sprintf("%s (before %d, now %d)", row, bn, n))
+			}
+		}
+	}
+	for row := range o.Rows {
+		if _, ok := b.Rows[row]; !ok {
+			extra = append(extra, row)
+		}
+	}
+	if len(lost) > 0 {
+		rep("rows-lost", "rows visible before compaction are in no readable file", lost)
+	}
+	if len(extra) > 0 {
+		rep("row-not-among-inputs", "a visible row is not one of the input rows", extra)
+	}
+	if exact && len(dup) > 0 {
+		rep("rows-duplicated", "after recovery by a later cycle rows are visible more often than before compaction", dup)
+	}
+}
+
+func c09Brief(ls []c09JobLog) []string {
+	var out []string
+	for _, l := range ls {
+		s := fmt.Sprintf("#%d %s %s b%d attempt%d files=%d ops=%d", l.Seq, l.Tier, l.Partition, l.Batch, l.Nth, len(l.Files), len(l.Ops))
+		if l.Fault != nil {
+			s += fmt.Sprintf(" FAULT(%s@%d dead=%v)", l.Fault.Mode, l.Fault.K, l.Dead)
+		}
+		out = append(out, s)
+	}
+	return out
+}
+
+// laterCycles runs cycles 2h apart until one changes nothing (at most 3), judging after each.
+func (e *c09Env) laterCycles(s *c09Scn, m *compaction.Manager) {
+	for c := 1; c <= 3; c++ {
+		vclock.Jump(2 * time.Hour)
+		prev := c09Scan(e.w.duck, e.store, e.tags)
+		if prev.Manifest > 0 {
+			e.w.ctr["later_cycles_starting_with_a_pending_manifest"]++
+		}
+		e.cycle(m)
+		o := c09Scan(e.w.duck, e.store, e.tags)
+		e.judge(s, "after-later-cycle", o, true)
+		if strings.Join(prev.Files, "\n") == strings.Join(o.Files, "\n") {
+			if o.Manifest > 0 {
+				e.w.ctr["quiescent_with_manifest_left"]++
+			}
+			if o.Parts > 0 {
+				e.w.ctr["quiescent_with_part_file_left"]++
+			}
+			return
+		}
+		if c == 3 {
+			e.w.ctr["not_quiescent_after_3_later_cycles"]++
+		}
+	}
+}
+
+func (w *c09Worker) runScenario(p *c09Part, fx []c09Fixture, s *c09Scn) {
+	e := w.newEnv(p, fx)
+	defer e.close()
+	w.ctr["evals"]++
+	w.ctr["evals_"+s.Mode]++
+	m := e.manager()
+	switch s.Mode {
+	case "crash-free":
+		e.cycle(m)
+		e.judge(s, "after-first-cycle", c09Scan(w.duck, e.store, e.tags), true)
+	case "job-kill", "job-error":
+		e.faults = []c09Fault{s.Fault}
+		e.cycle(m)
+		logs := e.jobLogs()
+		reached, split := false, false
+		for _, l := range logs {
+			if l.Fault != nil && (l.Dead || (l.Fault.Mode == "fail" && l.Fault.K < len(l.Ops))) {
+				reached = true
+			}
+			if l.Nth > 0 {
+				split = true
+			}
+		}
+		if !reached {
+			w.ctr["fault_point_not_reached"]++
+			w.run.Violate("HARNESS|fault-point-not-reached|"+s.Mode+"|"+s.Part, "the recorded call was not reached when the same job ran again", map[string]any{"scenario": s, "jobs": c09Brief(logs)})
+			return
+		}
+		w.ctr["nontrivial"]++
+		if split {
+			w.ctr["scenarios_with_adaptive_split_retry"]++
+		}
+		e.judge(s, "after-crash-cycle", c09Scan(w.duck, e.store, e.tags), false)
+	case "node-crash":
+		e.faults = []c09Fault{s.Fault}
+		cand, ok := e.firstBatch(m, s.Fault.Partition)
+		if !ok {
+			ev.Unbound("C09: no hourly candidate for " + s.Fault.Partition)
+		}
+		e.writePlan()
+		err := m.CompactPartition(context.Background(), cand)
+		logs := e.jobLogs()
+		if len(logs) != 1 || !logs[0].Dead {
+			w.ctr["fault_point_not_reached"]++
+			w.run.Violate("HARNESS|fault-point-not-reached|"+s.Mode+"|"+s.Part, "the recorded call was not reached when the same job ran again", map[string]any{"scenario": s, "jobs": c09Brief(logs), "err": fmt.Sprint(err)})
+			return
+		}
+		if err == nil || !strings.Contains(err.Error(), "signal: killed") {
+			ev.Unbound("C09: a killed job was not reported as 'signal: killed': " + fmt.Sprint(err))
+		}
+		w.ctr["nontrivial"]++
+		e.judge(s, "crash-state", c09Scan(w.duck, e.store, e.tags), false)
+		m = e.manager() // the parent died too: fresh process state
+	case "inproc-error":
+		cand, ok := e.firstBatch(m, s.Fault.Partition)
+		if !ok {
+			ev.Unbound("C09: no hourly candidate for " + s.Fault.Partition)
+		}
+		ops, _ := e.inprocJob(m, cand, s.Fault.K)
+		if s.Fault.K >= len(ops) {
+			w.ctr["fault_point_not_reached"]++
+			w.run.Violate("HARNESS|fault-point-not-reached|"+s.Mode+"|"+s.Part, "the recorded call was not reached when the same job ran again", map[string]any{"scenario": s})
+			return
+		}
+		w.ctr["nontrivial"]++
+		e.judge(s, "after-failed-job", c09Scan(w.duck, e.store, e.tags), false)
+	}
+	e.laterCycles(s, m)
+	w.samples.Add(map[string]any{"scenario": s, "jobs": c09Brief(e.jobLogs())})
+}
+
+// inprocJob runs the real Job.Run in this process on the real LocalBackend/DuckDB; call failK of the
+// job fails with EIO (failK<0: none).
+func (e *c09Env) inprocJob(m *compaction.Manager, cand compaction.Candidate, failK int) ([]vos.Op, error) {
+	db, err := sql.Open("duckdb", "")
+	if err != nil {
+		ev.Unbound("C09: duckdb: " + err.Error())
+	}
+	defer db.Close()
+	db.Exec("SET threads=1")
+	lg := e.w.logger()
+	job := compaction.NewJob(&compaction.JobConfig{Measurement: cand.Measurement, PartitionPath: cand.PartitionPath, Files: cand.Files,
+		StorageBackend: e.lb, Database: cand.Database, Tier: cand.Tier, BatchNumber: cand.BatchNumber, TempDirectory: e.tmp,
+		SortKeys: m.GetSortKeys(cand.Measurement), Logger: lg, DB: db, ManifestManager: compaction.NewManifestManager(e.lb, lg),
+		JobID: fmt.Sprintf("%s_%s_%d_b%d", cand.Database, strings.ReplaceAll(cand.PartitionPath, "/", "_"), vclock.Now().UnixNano(), cand.BatchNumber)})
+	vos.Start(-1, -1)
+	if failK >= 0 {
+		vos.FailAt(failK, syscall.EIO)
+	}
+	err = job.Run(context.Background())
+	ops, _ := vos.Stop()
+	return ops, err
+}
+
+// label names the logical step a mutating call belongs to (index-free, so that classes stay small).
+func c09Label(op vos.Op, store, tmp string) string {
+	p := op.Path
+	under := func(dir string) bool { return p == dir || strings.HasPrefix(p, dir+"/") }
+	switch {
+	case p == store && op.Kind == "mkdir":
+		return "storage-root-mkdir"
+	case under(tmp):
+		switch op.Kind {
+		case "mkdir":
+			return "temp-mkdir"
+		case "remove":
+			return "temp-cleanup"
+		}
+		return "download-to-temp"
+	case under(filepath.Join(store, compaction.ManifestBasePath)):
+		tmpf := strings.HasPrefix(filepath.Base(p), ".arc-")
+		switch {
+		case op.Kind == "mkdir":
+			return "manifest-dir-mkdir"
+		case op.Kind == "create":
+			return "manifest-tmp-create"
+		case op.Kind == "write":
+			return "manifest-tmp-write"
+		case op.Kind == "rename":
+			return "manifest-rename"
+		case op.Kind == "remove" && tmpf:
+			return "manifest-tmp-remove"
+		case op.Kind == "remove":
+			return "manifest-delete"
+		}
+	case strings.HasSuffix(p, ".part"):
+		switch op.Kind {
+		case "write":
+			return "output-part-write"
+		case "rename":
+			return "output-rename"
+		}
+		return "output-part-create"
+	case under(store) && op.Kind == "mkdir":
+		return "partition-dir-mkdir"
+	case under(store) && op.Kind == "remove" && strings.HasSuffix(p, ".parquet"):
+		return "input-delete"
+	case under(store) && op.Kind == "remove":
+		return "empty-dir-remove"
+	}
+	return op.Kind + ":?"
+}
+
+// ---------------------------------------------------------------------------------------------
+// driver
+
+func c09Scratch() string {
+	if s := os.Getenv("VERIF_C09_SCRATCH"); s != "" {
+		return s
+	}
+	return fmt.Sprintf("/dev/shm/verif.c09.%d", os.Getpid())
+}
+
+func verifC09() {
+	run := ev.Start("C09", "fault_enumeration")
+	scratch := c09Scratch()
+	shard, shards, isWorker := ev.Shard()
+	var parts []c09Part
+	for _, p := range c09Parts() {
+		if p.Quick || !run.Quick() {
+			parts = append(parts, p)
+		}
+	}
+	if !isWorker {
+		defer os.RemoveAll(scratch)
+		os.RemoveAll(scratch)
+		os.MkdirAll(filepath.Join(scratch, "rec"), 0o700)
+		os.Setenv("VERIF_C09_SCRATCH", scratch)
+		os.Setenv("VERIF_C09_PHASE", "record")
+		c1, _, ok1 := run.SpawnShards(min(16, len(parts)))
+		scns := c09BuildScenarios(run, parts, scratch)
+		b, _ := json.Marshal(scns)
+		os.WriteFile(filepath.Join(scratch, "scenarios.json"), b, 0o600)
+		os.Setenv("VERIF_C09_PHASE", "enumerate")
+		c2, samples, ok2 := run.SpawnShards(16)
+		for k, v := range c1 {
+			c2[k] += v
+		}
+		c09Report(run, parts, scns, c2, samples, ok1 && ok2)
+		return
+	}
+	w := &c09Worker{run: run, scratch: filepath.Join(scratch, fmt.Sprintf("w%d.%s", shard, os.Getenv("VERIF_C09_PHASE"))), ctr: map[string]int64{}, samples: ev.NewSamples(1), debug: os.Getenv("VERIF_C09_DEBUG") != ""}
+	os.MkdirAll(w.scratch, 0o700)
+	defer os.RemoveAll(w.scratch)
+	db, err := sql.Open("duckdb", "")
+	if err != nil {
+		ev.Unbound("C09: duckdb: " + err.Error())
+	}
+	db.SetMaxOpenConns(1)
+	db.Exec("SET threads=1")
+	w.duck = db
+	complete := true
+	if os.Getenv("VERIF_C09_PHASE") == "record" {
+		for i := range parts {
+			if i%shards == shard {
+				w.record(&parts[i])
+			}
+		}
+	} else {
+		var scns []c09Scn
+		b, err := os.ReadFile(filepath.Join(scratch, "scenarios.json"))
+		if err != nil || json.Unmarshal(b, &scns) != nil {
+			ev.Unbound("C09: scenarios.json: " + fmt.Sprint(err))
+		}
+		byName := map[string]*c09Part{}
+		fxs := map[string][]c09Fixture{}
+		for i := range parts {
+			byName[parts[i].Name] = &parts[i]
+		}
+		for i := range scns {
+			if i%shards != shard {
+				continue
+			}
+			if run.TimeUp() {
+				complete = false
+				break
+			}
+			p := byName[scns[i].Part]
+			if fxs[p.Name] == nil {
+				fxs[p.Name], _ = p.build()
+			}
+			w.runScenario(p, fxs[p.Name], &scns[i])
+		}
+	}
+	os.RemoveAll(w.scratch)
+	run.FinishShard(w.ctr, w.samples.List(), complete)
+}
+
+// record: the crash-free run of one partition (judged like any other scenario) yields the call log
+// of every job; a crash-free in-process Job.Run yields the call log for the in-process mode.
+func (w *c09Worker) record(p *c09Part) {
+	fx, nrows := p.build()
+	e := w.newEnv(p, fx)
+	if e.before.Total != nrows {
+		ev.Unbound(fmt.Sprintf("C09: partition %s: generator wrote %d rows, DuckDB sees %d", p.Name, nrows, e.before.Total))
+	}
+	if p.dedup() {
+		// generator hygiene: no duplicate key may involve a NULL tag (the property does not say how NULLs group)
+		for k, n := range e.before.Keys {
+			if n > 1 && strings.Contains(k, "=NULL") {
+				ev.Unbound("C09 generator: duplicate key with a NULL tag in " + p.Name + ": " + k)
+			}
+		}
+	}
+	s := &c09Scn{Part: p.Name, Mode: "crash-free", Job: "-", Label: "-"}
+	w.ctr["evals"]++
+	w.ctr["evals_crash-free"]++
+	m := e.manager()
+	e.cycle(m)
+	rec := c09Rec{Part: p.Name, Jobs: e.jobLogs()}
+	o := c09Scan(w.duck, e.store, e.tags)
+	e.judge(s, "after-first-cycle", o, true)
+	for _, l := range rec.Jobs {
+		if len(l.Ops) == 0 {
+			ev.Unbound(fmt.Sprintf("C09: crash-free job #%d of %s recorded no file-system call (shim not compiled in?)", l.Seq, p.Name))
+		}
+	}
+	if len(rec.Jobs) < 2 {
+		ev.Unbound(fmt.Sprintf("C09: crash-free cycle over %s ran %d jobs (fixture not selected by the tiers?)", p.Name, len(rec.Jobs)))
+	}
+	e.laterCycles(s, m)
+	w.samples.Add(map[string]any{"partition": p.Name, "files": len(p.Files), "rows": nrows, "crash_free_jobs": c09Brief(rec.Jobs)})
+	for i := range rec.Jobs {
+		for j := range rec.Jobs[i].Ops {
+			rec.Jobs[i].Ops[j] = c09RelOp(rec.Jobs[i].Ops[j], e.store, e.tmp)
+		}
+	}
+	e.close()
+	// in-process
+	e = w.newEnv(p, fx)
+	m = e.manager()
+	first := rec.Jobs[0]
+	for _, l := range rec.Jobs {
+		if l.Tier == "hourly" && l.Batch == 1 && l.Partition < first.Partition {
+			first = l
+		}
+	}
+	cand, ok := e.firstBatch(m, first.Partition)
+	if !ok {
+		ev.Unbound("C09: no hourly candidate for " + first.Partition)
+	}
+	ops, err := e.inprocJob(m, cand, -1)
+	if err != nil {
+		ev.Unbound("C09: crash-free in-process Job.Run failed: " + err.Error())
+	}
+	for i := range ops {
+		ops[i] = c09RelOp(ops[i], e.store, e.tmp)
+	}
+	rec.Inproc, rec.InJob, rec.InN = ops, "hourly-b1", len(cand.Files)
+	s = &c09Scn{Part: p.Name, Mode: "crash-free-inproc", Job: "hourly-b1", Label: "-"}
+	w.ctr["evals"]++
+	e.judge(s, "after-failed-job", c09Scan(w.duck, e.store, e.tags), false)
+	e.laterCycles(s, m)
+	e.close()
+	b, _ := json.Marshal(rec)
+	os.WriteFile(filepath.Join(c09Scratch(), "rec", p.Name+".json"), b, 0o600)
+}
+
+func c09BuildScenarios(run *ev.Run, parts []c09Part, scratch string) []c09Scn {
+	var out []c09Scn
+	for _, p := range parts {
+		var rec c09Rec
+		b, err := os.ReadFile(filepath.Join(scratch, "rec", p.Name+".json"))
+		if err != nil || json.Unmarshal(b, &rec) != nil {
+			ev.Unbound("C09: no recording for " + p.Name)
+		}
+		// targets: the first hourly job (all modes); thorough: also the next hourly job and the first daily job (job-kill)
+		var targets []c09JobLog
+		var hourly []c09JobLog
+		for _, l := range rec.Jobs {
+			if l.Tier == "hourly" && l.Nth == 0 {
+				hourly = append(hourly, l)
+			}
+		}
+		sort.Slice(hourly, func(i, j int) bool {
+			if hourly[i].Partition != hourly[j].Partition {
+				return hourly[i].Partition < hourly[j].Partition
+			}
+			return hourly[i].Batch < hourly[j].Batch
+		})
+		if len(hourly) == 0 {
+			ev.Unbound("C09: no hourly job recorded for " + p.Name)
+		}
+		targets = append(targets, hourly[0])
+		if !run.Quick() {
+			if len(hourly) > 1 {
+				targets = append(targets, hourly[1])
+			}
+			for _, l := range rec.Jobs {
+				if l.Tier == "daily" && l.Nth == 0 {
+					targets = append(targets, l)
+					break
+				}
+			}
+		}
+		for ti, t := range targets {
+			job := fmt.Sprintf("%s-b%d", t.Tier, t.Batch)
+			if ti == 1 && t.Tier == "hourly" && t.Partition != targets[0].Partition {
+				job = "hourly-b1(second-partition)"
+			}
+			for k, op := range t.Ops {
+				lab := c09RecLabel(op)
+				base := c09Scn{Part: p.Name, Label: lab, Op: op, Job: job, BatchFiles: len(t.Files),
+					Fault: c09Fault{Tier: t.Tier, Partition: t.Partition, Batch: t.Batch, Nth: 0, K: k, Torn: -1}}
+				modes := []string{"job-kill"}
+				if ti == 0 {
+					modes = []string{"job-kill", "node-crash", "job-error"}
+				}
+				for _, md := range modes {
+					s := base
+					s.Mode = md
+					s.Fault.Mode = "kill"
+					if md == "job-error" {
+						s.Fault.Mode = "fail"
+					}
+					out = append(out, s)
+					if md != "job-error" && op.Kind == "write" && op.Len > 1 && (lab == "output-part-write" || lab == "manifest-tmp-write") {
+						s.Fault.Torn = op.Len / 2
+						s.Label = lab + "(torn)"
+						out = append(out, s)
+					}
+				}
+			}
+		}
+		for k, op := range rec.Inproc {
+			out = append(out, c09Scn{Part: p.Name, Mode: "inproc-error", Label: c09RecLabel(op), Op: op, Job: rec.InJob, BatchFiles: rec.InN,
+				Fault: c09Fault{Tier: "hourly", Partition: targets[0].Partition, Batch: 1, K: k, Torn: -1, Mode: "fail"}})
+		}
+	}
+	return out
+}
+
+// c09RelOp makes the paths of a recorded call independent of the scratch directory.
+func c09RelOp(op vos.Op, store, tmp string) vos.Op {
+	rel := func(p string) string {
+		if p == store || strings.HasPrefix(p, store+"/") {
+			return "$STORE" + p[len(store):]
+		}
+		if p == tmp || strings.HasPrefix(p, tmp+"/") {
+			return "$TMP" + p[len(tmp):]
+		}
+		return p
+	}
+	op.Path, op.Path2 = rel(op.Path), rel(op.Path2)
+	return op
+}
+
+func c09RecLabel(op vos.Op) string { return c09Label(op, "$STORE", "$TMP") }
+
+func c09Report(run *ev.Run, parts []c09Part, scns []c09Scn, ctr map[string]int64, samples []any, complete bool) {
+	c09Regroup(run, parts, scns)
+	run.Coverage["evaluations"] = ctr["evals"]
+	run.Coverage["distinct_nontrivial"] = ctr["nontrivial"]
+	var names []string
+	for _, p := range parts {
+		names = append(names, fmt.Sprintf("%s(files=%d,max_files_per_batch=%d)", p.Name, len(p.Files), p.MaxBatch))
+	}
+	labels := map[string]int{}
+	modes := map[string]int{}
+	for _, s := range scns {
+		labels[s.Label]++
+		modes[s.Mode]++
+	}
+	run.Coverage["rule"] = "one evaluation = one (partition, fault mode, target job, mutating file-system call k of that job [, torn length of a write]) executed on the real Manager/Job/ManifestManager/LocalBackend/DuckDB with real job subprocesses, plus one crash-free run per partition and mode; every call of the target job's recorded log is a fault point (calls of package compaction on the temp directory = phase kills, calls of LocalBackend = storage mutations); non-trivial = the job really reached the call and was killed / got EIO there (checked from the job process's own log); distinct because (partition, mode, job, k, torn) differ"
+	run.Coverage["samples"] = samples
+	run.Coverage["partitions"] = names
+	run.Coverage["fault_points_by_step"] = labels
+	run.Coverage["scenarios_by_mode"] = modes
+	run.Coverage["scenarios"] = len(scns)
+	run.Coverage["exhaustive"] = complete
+	for k, v := range ctr {
+		if k != "evals" && k != "nontrivial" {
+			run.Coverage[k] = v
+		}
+	}
+	run.Assume("crash model: process crash of the job (SIGKILL) at a mutating file-system call: every completed call is visible, nothing later reaches the disk; torn writes for the manifest and the uploaded output (half length); power-loss reordering not modelled (LocalBackend never fsyncs)")
+	run.Assume("the wall clock of package compaction is virtual (overlay): cycles are 2h apart, every job process gets its own instant; name collisions caused by a coarse real clock are out of scope")
+	run.Assume("dedup partitions: the survivor of a duplicate (tags,time) key is unspecified and keys that stay uncollapsed (duplicates in different batches or split halves) are NOT judged; only 'at least one and at most as many rows per key as before, every row one of the inputs'; duplicate keys with a NULL tag are excluded from the generator")
+	run.Assume("node-crash (job and parent die together) is enumerated for the first job of a partition only; for later jobs of the cycle only the job dies; one fault per scenario; LocalBackend only (no S3/Azure batch delete); OSS mode (no completion manifests, no edge-sync observers)")
+	run.Assume("the job subprocess is this harness binary: stdin JSON -> the real compaction.RunSubprocessJob -> stdout JSON; the ~45 lines of flag/JSON glue in cmd/arc runCompactSubcommand are mirrored, not executed (the arc binary needs seconds to start)")
+	os.RemoveAll(c09Scratch())
+	run.Finish()
+}
+
+// c09Regroup turns raw violations (kind|at|mode|job|step|partition) into classes
+// kind|at|mode|job|step|shape where shape is "batch-files>=N" when exactly the partitions whose
+// target batch has >=N files fail, else the list of failing partitions.
+func c09Regroup(run *ev.Run, parts []c09Part, scns []c09Scn) {
+	raw, counts := run.TakeViolations()
+	type grp struct {
+		parts map[string]bool
+		ex    ev.Violation
+		exN   int
+		n     int
+	}
+	groups := map[string]*grp{}
+	nfiles := map[string]int{}
+	for _, p := range parts {
+		nfiles[p.Name] = len(p.Files)
+	}
+	for _, v := range raw {
+		f := strings.Split(v.Signature, "|")
+		if len(f) != 6 || f[0] == "HARNESS" {
+			run.Violate(v.Signature, v.Desc, v.Replay)
+			continue
+		}
+		key := strings.Join(f[:5], "|")
+		g := groups[key]
+		if g == nil {
+			g = &grp{parts: map[string]bool{}, exN: 1 << 30}
+			groups[key] = g
+		}
+		g.parts[f[5]] = true
+		g.n += counts[v.Signature]
+		if nfiles[f[5]] < g.exN {
+			g.exN, g.ex = nfiles[f[5]], v
+		}
+	}
+	for key, g := range groups {
+		f := strings.Split(key, "|")
+		mode, job, label := f[2], f[3], f[4]
+		// batch size of the target job per partition, for the partitions where this (mode, job, step) was executed
+		bsz := map[string]int{}
+		for _, s := range scns {
+			if s.Mode == mode && s.Job == job && s.Label == label {
+				bsz[s.Part] = s.BatchFiles
+			}
+		}
+		minFail := 1 << 30
+		for p := range g.parts {
+			if bsz[p] < minFail {
+				minFail = bsz[p]
+			}
+		}
+		threshold := len(bsz) > 0
+		for p, n := range bsz {
+			if (n >= minFail) != g.parts[p] {
+				threshold = false
+			}
+		}
+		shape := ""
+		if threshold && minFail > 0 && minFail < 1<<30 {
+			shape = fmt.Sprintf("batch-files>=%d", minFail)
+		} else {
+			var ns []string
+			for p := range g.parts {
+				ns = append(ns, p)
+			}
+			sort.Strings(ns)
+			shape = "partitions=" + strings.Join(ns, ",")
+		}
+		run.Violate(key+"|"+shape, fmt.Sprintf("%s (%d raw cases over %d partitions)", g.ex.Desc, g.n, len(g.parts)), g.ex.Replay)
+	}
+}
